@@ -10,7 +10,84 @@ TREE_NOTE = (
     "are statement boundaries of loky's code plus external kills; 'finite time' is replaced by 40 s of global silence."
 )
 
+def _tree(level, technique, text, ref, note=None):
+    return {"level": level, "technique": technique, "text": text, "design_ref": ref, "note": note or TREE_NOTE, "engine": "process-tree"}
+
+
 CHECKS = {
+    "C01": _tree(
+        "exploration",
+        "runtime monitoring of real process trees: client-boundary history + stall watchdog with stack witnesses, under systematic delay/crash injection at statement boundaries (sys.monitoring)",
+        "Hundreds (quick) to thousands (thorough) of distinct executions of generated programs (all task outcomes, cancel/resize/shutdown/del/exit) with one placed delay in a "
+        "driver thread, one placed death in a worker, or jitter; the oracle demands every handed-out future terminal, every API call returned and the interpreter exited before "
+        "40 s of global silence. Liveness over all schedules cannot be decided by a finite run; placed perturbation at every discovered statement of the anchored functions is the "
+        "strongest runtime evidence available.",
+        "DESIGN.md section 3, C01",
+    ),
+    "C02": _tree(
+        "fault_enumeration",
+        "fault injection (worker killed at enumerated statement boundaries of its life, by 6 causes, single/double, plus manager delays) + offline oracle over the recorded history",
+        "Every statement boundary executed by a worker in the profiled program (thorough: all of them x first/last hit; quick: stratified sample over all functions) is used as a "
+        "death point; the oracle checks for every future: terminal, no fabricated value, BrokenProcessPool/TerminatedWorkerError (concurrent.futures class) naming the exit status, "
+        "later submits raise it, flag set, workers reaped.",
+        "DESIGN.md section 3, C02",
+    ),
+    "C03": _tree(
+        "exploration",
+        "history-based oracle with unique task ids (value vs reference, execution count from in-body records, map vs builtin map) under delays/jitter; differential run of the chunk helpers",
+        "Unique ids make every future identify the submission that produced its value; executions are counted from records written inside task bodies; map results are compared "
+        "with list(map(...)) for generated chunk sizes and unequal lengths; quiescent bookkeeping invariants are read after each drained batch.",
+        "DESIGN.md section 3, C03",
+    ),
+    "C04": _tree(
+        "exploration",
+        "history-based oracle with an expected-outcome table per failure kind, quiescent invariants (queue slots, running ids), under delays in the feeder error path",
+        "Faulty tasks of every kind at generated positions among good ones (incl. more unsendable tasks than queue slots); every future is compared with its reference outcome "
+        "(type, args, remote traceback as __cause__), the pool must stay unbroken, slots must be returned, a fresh submit must succeed.",
+        "DESIGN.md section 3, C04",
+    ),
+    "C05": _tree(
+        "exploration",
+        "history-based oracle at shutdown completion (results, exit codes, flags, threads, later submit) with delays placed in the shutdown machinery and the worker exit handshake",
+        "Shutdown requested in six ways at four program positions, with idle time-outs and slow pickling; one delay at a statement of shutdown/_python_exit/shutdown_workers/"
+        "join_executor_internals or of the worker's handshake per case.",
+        "DESIGN.md section 3, C05",
+    ),
+    "C06": _tree(
+        "exploration",
+        "history + /proc observation of the whole process tree (namespace-wide) after shutdown(kill_workers=True), endless tasks as logical promptness witness",
+        "Pool states reached by generated pauses, nested executors to depth 2 and subprocess grandchildren, psutil and pgrep paths; oracle: the call returned with no endless task "
+        "completed, every unfinished future has ShutdownExecutorError (cancelled stay cancelled, finished keep values), workers reaped and descendants dead.",
+        "DESIGN.md section 3, C06",
+    ),
+    "C07": _tree(
+        "exploration",
+        "history-based oracle (no broken flag, exactly-once, exit path of each worker classified from its own line events) with delays of 3x the idle timeout placed at every racing statement",
+        "Time-outs down to 1 ms, all workers timing out at once, memory-leak exits, resizes and shutdown in the same history; delays placed in submit/spawn/dispatch/announcement "
+        "processing/respawn/_resize and in the worker between Empty, lock probe, announcement and exit-lock wait.",
+        "DESIGN.md section 3, C07",
+    ),
+    "C08": _tree(
+        "exploration",
+        "interval-overlap oracle over in-body records + invariant probes of len(_processes) at hooked statements (read-only, under the code's own lock) + rendezvous tasks for delivery",
+        "Upper bound from logged execution intervals and from probes evaluated at every statement of the spawn/respawn/resize functions; delivery decided by rendezvous tasks that "
+        "only return when max_workers of them are checked in simultaneously (no wall-clock reasoning).",
+        "DESIGN.md section 3, C08",
+    ),
+    "C09": _tree(
+        "exploration",
+        "reference-model monitor of the factory (identity, ids, arguments, health, replaced-instance liveness from /proc) over generated call sequences, plus racing callers",
+        "A 20-line executable model of get_reusable_executor is run side by side with the real factory on generated sequences with crashes, shutdowns and time-outs; "
+        "multi-threaded callers must all get their results.",
+        "DESIGN.md section 3, C09",
+    ),
+    "C10": _tree(
+        "exploration",
+        "history-based oracle on pid sets before/after each resize with the statement's premise evaluated on the history; delays at every statement of _resize, deaths during it",
+        "All (old,new) pairs with in-flight work and idle time-outs; a delay of 3x the timeout at each discovered statement of _resize/_wait_job_completion, worker deaths "
+        "during the resize; termination by the C01 watchdog.",
+        "DESIGN.md section 3, C10",
+    ),
     "C11": {
         "level": "other",
         "technique": "reference-model runtime monitor on the real tracker loop (recorded clean-up trace vs executable model), exhaustive short sequences + seeded random long ones",
@@ -23,6 +100,25 @@ CHECKS = {
         "Holds for the sequences explored (all sequences <= bound over a 16-token alphabet; random ones beyond).",
         "engine": "tracker_model",
     },
+    "C16": {
+        "level": "exploration",
+        "technique": "differential runtime oracle: generated functions/instances/classes wrapped by the real wrap_non_picklable_objects, compared with the bare object through real pickle round trips and a cross-process leg",
+        "text": "Seeded generator of 13 kinds of objects (lambdas, closures, recursive local functions, callable/non-callable instances of local classes, classes with generated "
+        "constructors); each is checked fresh, after 3 pickle round trips and as wrapper-of-wrapper for both keep_wrapper values; a child interpreter sends wrappers through a real executor with the plain pickle back-end.",
+        "design_ref": "DESIGN.md section 3, C16",
+        "note": "Trusted: the bare object as reference; names owned by the wrapper itself (_obj, _keep_wrapper, __doc__, __module__) and implicit special-method lookups are outside the statement and not judged.",
+        "engine": "wrapper_gen",
+    },
+    "C17": {
+        "level": "other",
+        "technique": "reference-model runtime monitor: the real cpu_count() under substituted OS/affinity/cgroup/env/probe inputs vs an independent formula; exhaustive grid (thorough), seeded sample + random integers (quick)",
+        "text": "Every configuration of a 52k-point grid (thorough, exhaustive) or a seeded sample plus arbitrary-integer configurations (quick) is fed to the real cpu_count() "
+        "through substituted inputs; return values and the number of fallback warnings are compared with a formula written from the statement.",
+        "design_ref": "DESIGN.md section 3, C17",
+        "note": "Trusted: the substitution layer (os.cpu_count, sched_getaffinity, psutil, the three cgroup files, LOKY_MAX_CPU_COUNT, the physical-core probe and its cache). "
+        "win32 cap (61) accepted in both readings; non-integer override strings are outside the quantifier.",
+        "engine": "cpu_model",
+    },
 }
 
 NOT_YET = "check not built yet in this session (design in DESIGN.md section 3); it will be claimed once built and silent on the unchanged tree"
@@ -30,6 +126,8 @@ NOT_YET = "check not built yet in this session (design in DESIGN.md section 3); 
 ENGINES = [
     {"name": "process-tree", "path": "harness/treecheck.py", "serves_properties": [], "kind_free_text": "real loky process trees in private pid+mount namespaces; sys.monitoring LINE injector (sleep/kill/signal at statement boundaries) in every process; client-boundary history + offline oracles"},
     {"name": "tracker_model", "path": "harness/inproc/tracker_model.py", "serves_properties": ["C11"], "kind_free_text": "real resource_tracker.main() on generated byte streams vs executable reference model"},
+    {"name": "wrapper_gen", "path": "harness/inproc/wrapper_gen.py", "serves_properties": ["C16"], "kind_free_text": "seeded object generator + differential oracle for wrap_non_picklable_objects"},
+    {"name": "cpu_model", "path": "harness/inproc/cpu_model.py", "serves_properties": ["C17"], "kind_free_text": "input substitution + reference formula for cpu_count"},
 ]
 
 
